@@ -394,3 +394,29 @@ def trigger_stage(rep, tier, seed):
     rep.cov["trigger_sufficiency_lemma"] = {"spec": "spec/Triggers.tla", "instances": len(recs),
                                             "algorithms": sorted({r["alg"] for r in recs}),
                                             "sample": {k: recs[0][k] for k in ("alg", "n", "params", "masks")}}
+
+
+def init_stage(rep, tier, seed, prefixes):
+    """Problem.init(): stable complexity sort, trigger matrix and flattened arrays judged by spec/ProblemInit.tla."""
+    r = random.Random(seed * 991 + 4)
+    n = 600 if tier == "quick" else 12000
+    items = []
+    for k in range(n):
+        P = problems.random_problem(r, cap=10 ** 6, flavour=r.choice(["alias", "alias", "int", "bool", "circuit"]))
+        if r.random() < 0.5 and len(P["props"]) > 1:       # duplicates and equal-cost constraints: ties for the sort
+            P["props"].append(json.loads(json.dumps(r.choice(P["props"]))))
+            r.shuffle(P["props"])
+        items.append({"rid": k, "P": P})
+    with Scratch("init") as tmp:
+        outs = run_workers("rec_init.py", [{"items": items[k::NCPU]} for k in range(NCPU) if items[k::NCPU]],
+                           nucs_env(jit=False), tmp, timeout=900)
+        recs = list(read_ndjson(outs))
+        verdicts, judged, st, tr = validate_shards("ProblemInit", "ProblemInit.cfg", "INIT_RECS", recs, tmp)
+    byid = {x["rid"]: x for x in items}
+    for rid, clause in verdicts:
+        if clause.startswith(prefixes):
+            rep.fail({"P": byid[rid]["P"], "clause": clause}, f"{clause} after Problem.init() of {json.dumps(byid[rid]['P'])[:300]}")
+    rep.add(states=st, transitions=tr, traces_validated_against_impl=judged)
+    rep.cov["problem_init_records"] = {"spec": "spec/ProblemInit.tla", "records": len(recs),
+                                       "with_aliased_positions": sum(1 for x in recs if any(
+                                           len({x["vidx"][v] for v in c["vars"]}) < len(c["vars"]) for c in x["posted"]))}
